@@ -277,10 +277,10 @@ class Evaluator:
         return ("attr", b, n.attr)
 
     def e_Tuple(self, n, st):
-        return ("tuple", tuple(self.ev(e, st) for e in n.elts))
+        return ("tuple", self.expand_args(n.elts, st))      # (a, *(b, c)) is (a, b, c)
 
     def e_List(self, n, st):
-        return ("list", tuple(self.ev(e, st) for e in n.elts))
+        return ("list", self.expand_args(n.elts, st))
 
     def e_Set(self, n, st):
         return ("set", tuple(self.ev(e, st) for e in n.elts))
@@ -369,6 +369,16 @@ class Evaluator:
     def e_Yield(self, n, st):
         v = self.ev(n.value, st) if n.value else NONE
         self.emit(st, "yield", (v,), n)
+        return NONE
+
+    def e_YieldFrom(self, n, st):
+        # yield from S  is  for x in S: yield x
+        it = self.expand(self.ev(n.value, st))
+        lid = ("L", st.loopn[0])
+        st.loopn[0] += 1
+        self.emit(st, "loop-enter", (lid, it), n)
+        self.emit(st, "yield", (("elem", it, lid),), n)
+        self.emit(st, "loop-exit", (lid,), n)
         return NONE
 
     def expand_args(self, args, st):
@@ -465,6 +475,8 @@ class Evaluator:
             return ("attr", args[0], q.rsplit(".", 1)[1])
         # x.min() / x.max() / x.ravel() / x.reshape(s) are recorded as the equivalent numpy function calls, so that the method and
         # the function spelling of the same array operation are one term
+        if f[0] == "attr" and f[2] == "searchsorted" and f[1][0] not in ("glob",) and args:
+            f, args = ("glob", "numpy.searchsorted"), (f[1],) + tuple(args)        # a.searchsorted(v, side=...) is np.searchsorted(a, v, side=...)
         if f[0] == "attr" and f[2] in ARRAY_METHODS and f[1][0] not in ("glob",) and not (f[2] in ("min", "max", "ravel") and args):
             f, args = ("glob", "numpy." + f[2]), (f[1],) + tuple(args)
             if f[1] == "numpy.reshape" and len(args) > 2:
@@ -785,6 +797,8 @@ class Evaluator:
             # a conditional expression anywhere in the statement (outside lambdas / comprehensions) whose arms make calls splits the path like
             # an if statement: `f(a if c else g(a))` is `if c: f(a) else: f(g(a))`; calls of the arm that is not taken are not recorded
             hit = _first_ifexp(s.value, self._is_function_ref(st))
+            if hit is None and isinstance(s.value, ast.IfExp) and isinstance(s, (ast.Assign, ast.Return)):
+                hit = s.value          # `x = A if c else B` / `return A if c else B` is the two-armed if statement
             if hit is not None:
                 c = self.ev(hit.test, st)
                 for st2, val in self.decisions(c, st, s):
